@@ -84,7 +84,11 @@ class JSONEncoder(json.JSONEncoder):
 
 def _load_docstring(obj_dict: dict) -> Docstring | None:
     if "docstring" in obj_dict:
-        return Docstring(**obj_dict["docstring"])
+        docstring = Docstring(**obj_dict["docstring"])
+        # The serialized value was cleaned already, and cleaning twice can change it again
+        # (a first line that is still indented after the first pass).
+        docstring.value = obj_dict["docstring"]["value"]
+        return docstring
     return None
 
 
